@@ -1393,3 +1393,22 @@ def paired_after(ctx, key, F, root, first_pats, second_pats, second_field, desc,
         elif not ok:
             det = 'success path without the second call: ' + (short_path(fb, w) if w and w != ['?'] else 'no such call in the function')
         ctx.ob('%s #%d' % (key, n), rule, fb.path, desc, ok, det, fb.loc(e))
+
+
+def type_mentions(F, ty, needle_rx, depth=4, _seen=None):
+    """does type string `ty` mention (directly or through the fields of crate structs/enums it names) a type matching needle_rx?"""
+    _seen = _seen if _seen is not None else set()
+    ty = str(ty)
+    if re.search(needle_rx, ty):
+        return True
+    if depth <= 0:
+        return False
+    for path, adt in F.adts.items():
+        if path in _seen or not re.search(r'(^|[^A-Za-z0-9_:])' + re.escape(path) + r'($|[^A-Za-z0-9_])', ty):
+            continue
+        _seen.add(path)
+        for v in adt['variants']:
+            for f in v['fields']:
+                if type_mentions(F, f.get('ty', ''), needle_rx, depth - 1, _seen):
+                    return True
+    return False
